@@ -431,7 +431,7 @@ RCP<const Basic> mul(const vec_basic &a)
 RCP<const Basic> div(const RCP<const Basic> &a, const RCP<const Basic> &b)
 {
     if (is_number_and_zero(*b)) {
-        if (is_number_and_zero(*a)) {
+        if (is_number_and_zero(*a) or is_a<NaN>(*a)) {
             return Nan;
         } else {
             return ComplexInf;
